@@ -7,6 +7,8 @@ import (
 	"net/http"
 	"net/http/httptest"
 	"net/url"
+	"os"
+	"runtime/debug"
 	"sort"
 	"strings"
 
@@ -358,6 +360,9 @@ func execCase(ops []string) (out []string) {
 	guard := func(line string, f func() string) {
 		defer func() {
 			if r := recover(); r != nil {
+				if os.Getenv("VERIF_LOG") != "" {
+					fmt.Fprintf(os.Stderr, "panic: %v\n%s\n", r, debug.Stack())
+				}
 				out = append(out, line+" => panic")
 			}
 		}()
